@@ -245,8 +245,18 @@ func checkC11(c *h.Check) {
 			cases = append(cases, cs)
 		}
 	}
+	// chains: the bound "concrete" type is itself an interface bound in the same set; all consumers share one instance
+	permutations(3, func(perm []int) {
+		for mask := 1; mask < 8; mask++ {
+			prog := chainBindProgram(2, mask, perm, mask%2)
+			cs := caseFromProgram(fmt.Sprintf("C11/bind-chain/consumers=%b/perm=%v", mask, perm), prog, true, map[string]bool{"wiring": true})
+			if c.NoteProgram(cs.Files) {
+				cases = append(cases, cs)
+			}
+		}
+	})
 	results := c.JudgeAll(cases)
-	stdCoverage(c, cases, results, "injectors that need no provider call and return an interface bound to one of up to three arguments that all implement it; full product: interface {plain, embedding another, from another package} x implementation {value receiver, pointer receiver, none, the interface itself, a wider interface} x bound type {T, *T} x how the concrete type is provided {function, struct provider, value, injector parameter, field, nested set inside the binding's set, enclosing call only, sibling set only} x consumers of I {1,2} x consumers of C {0,1,2} x {binding, no binding} x nesting depth of the binding's set below wire.Build {0..3} x visiting order {interface first, concrete type first, one consumer of both}; a second binding in the same set {none, valid, concrete type unprovided listed after / before the first}; wire imported plainly, under an alias or with a dot import; implementation kinds include a type that declares the interface's own methods but not those of an embedded interface. Oracle: rejected exactly when the method-set rule fails, C is I, or C is not provided in the binding's own set; accepted programs are compiled and run and every consumer of I and C must receive the same instance (pointer identity unified), C's source running once; without a binding the interface is missing. Distinct = distinct rendered source.")
+	stdCoverage(c, cases, results, "chains of two bindings (J -> I -> *L) in every order with every set of consumers; injectors that need no provider call and return an interface bound to one of up to three arguments that all implement it; full product: interface {plain, embedding another, from another package} x implementation {value receiver, pointer receiver, none, the interface itself, a wider interface} x bound type {T, *T} x how the concrete type is provided {function, struct provider, value, injector parameter, field, nested set inside the binding's set, enclosing call only, sibling set only} x consumers of I {1,2} x consumers of C {0,1,2} x {binding, no binding} x nesting depth of the binding's set below wire.Build {0..3} x visiting order {interface first, concrete type first, one consumer of both}; a second binding in the same set {none, valid, concrete type unprovided listed after / before the first}; wire imported plainly, under an alias or with a dot import; implementation kinds include a type that declares the interface's own methods but not those of an embedded interface. Oracle: rejected exactly when the method-set rule fails, C is I, or C is not provided in the binding's own set; accepted programs are compiled and run and every consumer of I and C must receive the same instance (pointer identity unified), C's source running once; without a binding the interface is missing. Distinct = distinct rendered source.")
 	c.Coverage["model_verdict_classes"] = kinds.summary()
 	c.Coverage["explorer"] = map[string]interface{}{"executions": st.Executions, "mode": "full product"}
 	sampleCase(c, cases, results)
